@@ -245,10 +245,11 @@ func (d *mapDecoder) DecodePath(ctx *RuntimeContext, cursor, depth int64) ([][]b
 				oldPath := ctx.Option.Path.node
 				ctx.Option.Path.node = child
 				paths, c, err := d.valueDecoder.DecodePath(ctx, cursor, depth)
+				// restore the path cursor on every exit: the Path is reused by later extractions
+				ctx.Option.Path.node = oldPath
 				if err != nil {
 					return nil, 0, err
 				}
-				ctx.Option.Path.node = oldPath
 				ret = append(ret, paths...)
 				cursor = c
 			} else {
